@@ -109,9 +109,9 @@ LEVEL_TEXT['C18'] = 'Kernel only. Unbounded deductive proof (Verus) on the real 
 NOTE['C18'] = 'Kernel only (the line reader). Trusted: Verus/Z3; the synchronous model of Read; assumed contract of slice::from_mut; await points dropped; text conversion uninterpreted. Kani part bounded (read_char: inputs <= 4 bytes, every chunking). Not covered: lexer buffer management, runner, Memory / Echo / prompt decorators, cross-process sharing of the descriptor, the backslash processing of read().'
 TECH['C18'] = 'contract-based deductive verification (Verus, Z3) of FdReader2::next_line (loop invariant over the consumed byte stream of a model descriptor) + bounded Kani harness-encoded contract of read_char (all inputs <= 4 bytes x all chunkings) on the real crate'
 
-LEVEL_TEXT['C02'] = 'Two kernels only. Unbounded deductive proof (Verus) that the command search resolves a name in the POSIX order (special built-in, function, other built-in, external utility; a slash means a path) and settles the path and the not-found / unusable errors as documented, and that break n / continue n leave min(n, enclosing loops) loops or fail outside a loop; bounded Kani check (stacks of <= 3-4 frames) of Stack::loop_count, the function that counts the enclosing loops of the current execution environment. The statement as a whole (which commands run, in which order, with which $?) is whole-interpreter async code and is not decided; level other because of that and of the bounded part.'
-NOTE['C02'] = 'Kernels only (command search order; break/continue levels). Trusted: Verus/Z3, Kani/CBMC; ghost views on the environment traits; search_path assumed; loop_count assumed in Verus and bounded-checked in Kani. Not covered: all executors (and-or, pipelines, compound commands, functions, return/exit), decoding of diverts by loops, Env::builtin, PATH walking.'
-TECH['C02'] = 'contract-based deductive verification (Verus, Z3) of classify / search / resolve_builtin and of break/continue run + bounded Kani harness-encoded contract of Stack::loop_count on the real crate'
+LEVEL_TEXT['C02'] = 'Two kernels only. Unbounded deductive proof (Verus) that the command search resolves a name in the POSIX order (special built-in, function, other built-in, external utility; a slash means a path) and settles the path and the not-found / unusable errors as documented, that break n / continue n leave min(n, enclosing loops) loops or fail outside a loop, and that while / until loops hand on the first divert of condition or body with exactly one level taken off (never swallowing one); bounded Kani check (stacks of <= 3-4 frames) of Stack::loop_count, the function that counts the enclosing loops of the current execution environment. The statement as a whole (which commands run, in which order, with which $?) is whole-interpreter async code and is not decided; level other because of that and of the bounded part.'
+NOTE['C02'] = 'Kernels only (command search order; break/continue levels). Trusted: Verus/Z3, Kani/CBMC; ghost views on the environment traits; search_path assumed; loop_count assumed in Verus and bounded-checked in Kani. Not covered: all other executors (and-or, pipelines, if/for/case, functions, return/exit), decoding of diverts by for loops, Env::builtin, PATH walking.'
+TECH['C02'] = 'contract-based deductive verification (Verus, Z3) of classify / search / resolve_builtin, of break/continue run and of Loop::iterate / Loop::execute of while loops + bounded Kani harness-encoded contract of Stack::loop_count on the real crate'
 
 LEVEL_TEXT['C17'] = 'Eligibility kernel only. Unbounded deductive proof (Verus) that Parser::substitute_alias replaces exactly the eligible tokens (unquoted literal word token; alias of that name exists; not already inside its own replacement; command position, global alias or after a blank-ending alias value) and that the recursion guard Source::is_alias_for is membership in the chain of alias origins, for chains of every depth. Termination and the resulting token sequence depend on the lexer splice and the async restart protocol and are not decided; level other because the claim is a kernel.'
 NOTE['C17'] = 'Eligibility kernel only. Trusted: Verus/Z3; ghost-map model of the glossary; reduced models of Word / Location / Source; lexer calls external_body. Not covered: LexerCore::substitute_alias (splice), restart protocol, keyword recognition in replacement text, alias/unalias built-ins.'
